@@ -13,6 +13,7 @@ accepted them without `partial`/well-founded fuel, so each returns an error or a
 import BHS.Proofs.Wire
 import BHS.Proofs.WireAlloc
 import BHS.Proofs.WireInv
+import BHS.Model.WireSha
 
 namespace BHS.Props.C14
 open BHS BHS.Wire BHS.Gen BHS.Gen.WireC
@@ -513,6 +514,31 @@ theorem reencode (gmax pver : Nat) (t : MsgType) (bs : Bytes) (m : Msg)
 
 /-! ## rejection of hostile frames (for ALL header field values and ALL streams) -/
 
+/-- every stream of at least 24 bytes is a header (magic, 12-byte command field, length, checksum) followed by
+    the rest — so the rejection theorems below cover ALL byte strings, not only well-formed headers -/
+theorem frame_header_decompose (bs : Bytes) (h : messageHeaderSize ≤ bs.length) :
+    ∃ magic cmd len ck rest, bs = put32le magic ++ cmd ++ put32le len ++ ck ++ rest ∧
+      magic < 2^32 ∧ len < 2^32 ∧ cmd.length = commandSize ∧ ck.length = 4 := by
+  have h24 : 24 ≤ bs.length := h
+  obtain ⟨magic, hm, em⟩ := bytes4_eq_put32le (bs.take 4) (by simp; omega)
+  obtain ⟨len, hl, el⟩ := bytes4_eq_put32le ((bs.drop 16).take 4) (by simp; omega)
+  refine ⟨magic, (bs.drop 4).take 12, len, (bs.drop 20).take 4, bs.drop 24, ?_, hm, hl, by simp; show min 12 _ = 12; omega, by simp; omega⟩
+  rw [← em, ← el]
+  have e1 : bs = bs.take 4 ++ bs.drop 4 := (List.take_append_drop 4 bs).symm
+  have e2 : bs.drop 4 = (bs.drop 4).take 12 ++ bs.drop 16 := by
+    have := (List.take_append_drop 12 (bs.drop 4)).symm
+    rwa [List.drop_drop] at this
+  have e3 : bs.drop 16 = (bs.drop 16).take 4 ++ bs.drop 20 := by
+    have := (List.take_append_drop 4 (bs.drop 16)).symm
+    rwa [List.drop_drop] at this
+  have e4 : bs.drop 20 = (bs.drop 20).take 4 ++ bs.drop 24 := by
+    have := (List.take_append_drop 4 (bs.drop 20)).symm
+    rwa [List.drop_drop] at this
+  calc bs = bs.take 4 ++ bs.drop 4 := e1
+    _ = bs.take 4 ++ ((bs.drop 4).take 12 ++ ((bs.drop 16).take 4 ++ ((bs.drop 20).take 4 ++ bs.drop 24))) := by
+      rw [← e4, ← e3, ← e2]
+    _ = _ := by simp only [List.append_assoc]
+
 /-- a stream shorter than a header is rejected -/
 theorem reject_short (H : Bytes → Bytes) (gmax pver net : Nat) (bs : Bytes) (h : bs.length < messageHeaderSize) :
     readMessage H gmax pver net bs = .error .eof := by
@@ -658,5 +684,44 @@ theorem alloc_bound_type_addr_counterexample :
     maxPayloadLength serviceMaxPayload 208 .MsgAddr = some 35 ∧
     decodeAllocs serviceMaxPayload 208 .MsgAddr [0xfd, 0xe8, 0x03] = [26000] := by
   decide
+
+/-! ## non-vacuity: the hypotheses of the theorems above are met by concrete, non-trivial values -/
+
+-- the global limit the service runs with (wire.SetLimits(config.ExcessiveBlockSize)) meets every side condition
+example : serviceMaxPayload = 268435456 := by decide
+example : maxUserAgentLen ≤ serviceMaxPayload ∧ serviceMaxPayload < 2^32 ∧ maxInvPerMsg * invVectSize ≤ serviceMaxPayload := by decide
+-- SHA-256 (the hash the driver instantiates the frame layer with) meets the hash hypothesis
+example : ∀ x, (BHS.WireSha.sha256 x).length = 32 := BHS.WireSha.sha256_length
+-- well-formed messages of every kind exist (WF is decidable)
+example : WF serviceMaxPayload 70013 (.version 70013 1 1700000000 ⟨goZeroTime, 1, List.replicate 16 1, 8333⟩ ⟨goZeroTime, 0, List.replicate 16 0, 0⟩ 7 [47, 120, 47] 800000 true) := by decide
+example : ¬ WF serviceMaxPayload 60002 (.version 70013 1 1700000000 ⟨goZeroTime, 1, List.replicate 16 1, 8333⟩ ⟨goZeroTime, 0, List.replicate 16 0, 0⟩ 7 [] 0 true) := by decide
+example : WF serviceMaxPayload 70013 (.addr [⟨1700000000, 1, List.replicate 16 9, 8333⟩]) := by decide
+example : WF serviceMaxPayload 209 (.addr [⟨goZeroTime, 1, List.replicate 16 9, 8333⟩]) := by decide
+example : WF serviceMaxPayload 70013 (.getheaders 70013 [List.replicate 32 1, List.replicate 32 2] zeroHash) := by decide
+example : WF serviceMaxPayload 70013 (.getblocks 70013 [List.replicate 32 1] zeroHash) := by decide
+example : WF serviceMaxPayload 70013 (.headers [⟨1, zeroHash, List.replicate 32 3, 1231006505, 0x1d00ffff, 2083236893⟩]) := by decide
+example : WF serviceMaxPayload 70013 (.inv [⟨2, List.replicate 32 5⟩]) ∧ WF serviceMaxPayload 70013 (.getdata [⟨2, List.replicate 32 5⟩]) ∧
+    WF serviceMaxPayload 70013 (.notfound [⟨1, List.replicate 32 5⟩]) := by decide
+example : WF serviceMaxPayload 70013 (.ping 5) ∧ WF serviceMaxPayload 60000 (.ping 0) ∧ ¬ WF serviceMaxPayload 60000 (.ping 5) := by decide
+example : WF serviceMaxPayload 60001 (.pong 5) ∧ ¬ WF serviceMaxPayload 60000 (.pong 5) := by decide
+example : WF serviceMaxPayload 70002 (.reject cmdBlock 0x10 [98, 97, 100] (List.replicate 32 7)) ∧
+    WF serviceMaxPayload 70002 (.reject [118] 0x10 [] zeroHash) ∧ ¬ WF serviceMaxPayload 70001 (.reject [118] 0x10 [] zeroHash) := by decide
+example : WF serviceMaxPayload 70012 .sendheaders ∧ WF serviceMaxPayload 70013 (.feefilter 1000) ∧ WF serviceMaxPayload 60002 .mempool ∧
+    WF serviceMaxPayload 0 .verack ∧ WF serviceMaxPayload 0 .getaddr := by decide
+-- concrete evaluations of the model
+example : encodePayload 70013 (.ping 5) = .ok [5, 0, 0, 0, 0, 0, 0, 0] := by decide
+example : decodePayload serviceMaxPayload 70013 .MsgPing [5, 0, 0, 0, 0, 0, 0, 0, 0xff] = .ok (.ping 5) := by decide
+example : decodePayload serviceMaxPayload 70013 .MsgInv [0xfd, 0x01, 0x00] = .error .nonCanonical := by decide
+example : decodePayload serviceMaxPayload 70013 .MsgInv [0xfd, 0x51, 0xc3] = .error .tooMany := by decide
+example : decodeAllocs serviceMaxPayload 70013 .MsgInv [0xfd, 0x50, 0xc3] = [1800000] := by decide
+example : decodePayload serviceMaxPayload 70013 .MsgHeaders ([1] ++ List.replicate 80 0 ++ [1]) = .error .txCount := by decide
+-- the frame theorems' hypotheses: a known command, an unknown one, a toy 32-byte hash
+example : lookupCmd (trimZeros (padCmd [112, 105, 110, 103])) = some .MsgPing ∧ (padCmd [112, 105, 110, 103]).length = commandSize := by decide
+example : ∀ e ∈ commandTable, e.1 ≠ trimZeros (padCmd [102, 111, 111]) := by decide
+example : lookupCmd (trimZeros ([118, 101, 114, 0, 97, 99, 107, 0, 0, 0, 0, 0])) = none := by decide
+example : writeMessage (fun _ => List.replicate 32 0) serviceMaxPayload 70013 mainNet (.ping 5) =
+    .ok ([0xe3, 0xe1, 0xf3, 0xe8, 112, 105, 110, 103, 0, 0, 0, 0, 0, 0, 0, 0, 8, 0, 0, 0, 0, 0, 0, 0, 5, 0, 0, 0, 0, 0, 0, 0]) := by decide
+example : readMessage (fun _ => List.replicate 32 0) serviceMaxPayload 70013 mainNet
+    ([0xe3, 0xe1, 0xf3, 0xe8, 112, 105, 110, 103, 0, 0, 0, 0, 0, 0, 0, 0, 8, 0, 0, 0, 0, 0, 0, 1, 5, 0, 0, 0, 0, 0, 0, 0]) = .error .checksum := by decide
 
 end BHS.Props.C14
